@@ -38,9 +38,14 @@ class ExportConfigC(ExportConfig):
             elif param.precision in [80,96,128]: dtype = "long double"
         return dtype
     
+    def _parse_string(self, value):
+        # backslash and double quote must be escaped inside a C string literal
+        value = str(value).replace("\\","\\\\").replace("\"","\\\"")
+        return f"\"{value}\""
+    
     def _parse_scalar(self, param, value):
         if isinstance(param, StringType):
-            value = f"\"{value}\""
+            value = self._parse_string(value)
         elif isinstance(param, BooleanType):
             value = "true" if value else "false"
         elif isinstance(param, IntegerType):
@@ -74,7 +79,7 @@ class ExportConfigC(ExportConfig):
         if param.value is None:
             value = ''
         elif isinstance(param, StringType):
-            value = "\""+str(param.value)+"\""
+            value = self._parse_string(param.value)
         elif isinstance(param, BooleanType):
             value = 1 if param.value else 0
         else:
